@@ -50,7 +50,7 @@ def gen_world(rng: random.Random, *, loader=None, tomo_kind="random", max_mol=10
         "tomo_seed": rng.randrange(1 << 30),
         "n_mol": n_mol,
         "mol_seed": rng.randrange(1 << 30),
-        "rot": rng.choice(["identity", "random", "random", "clustered"]),
+        "rot": rng.choice(["identity", "random", "random", "clustered", "clustered"]),
         "edge": bool(allow_edge and rng.random() < 0.3),
         "box": box,
         "order": order,
@@ -204,7 +204,7 @@ def gen_model_params(rng: random.Random, allow_fsc=True, allow_rot=True):
         p["rot"] = "list2"
     p["mask"] = rng.choice([None, None, "array", "soft"])
     p["cutoff"] = rng.choice([None, None, 0.3, 0.5])
-    p["tilt"] = rng.choice([None, None, [-60, 60], [-40, 50]])
+    p["tilt"] = rng.choice([None, None, [-60, 60], [-60, 60], [-40, 50]])
     if name == "FSC":
         p["max_shifts_px"] = rng.choice([0.0, 1.0, [1.0, 0.0, 1.0]])
     elif name == "PCC":
@@ -372,9 +372,9 @@ def run_op(op, world):
 def gen_op(rng: random.Random, world_spec, kinds=None):
     kinds = kinds or [
         "asnumpy", "load", "load_iter", "construct_dask", "average", "average_split", "fsc",
-        "align", "align", "align_no_template", "align_multi_templates", "landscape", "score", "score",
-        "shared_model", "shared_model", "group_align", "apply", "classify", "masked_difference_stack",
-        "group_average", "group_average_split", "group_apply",
+        "align", "align", "align", "align_no_template", "align_multi_templates", "align_multi_templates", "landscape", "landscape",
+        "score", "score", "score", "shared_model", "shared_model", "shared_model", "group_align", "group_align", "apply", "classify",
+        "masked_difference_stack", "masked_difference_stack", "group_average", "group_average_split", "group_apply",
     ]
     kind = rng.choice(kinds)
     n = sum(world_spec["n_mol"])
